@@ -1,7 +1,7 @@
 (* Property C13: the library functions that carry Lua names agree with Lua 5.4.
    Only the property theorems, each closed by [exact] of a lemma and followed by Print Assumptions.
    [lua_*] = reference (lstrlib.c / lutf8lib.c / lmathlib.c / lvm.c), [nl_*] = Nelua's port. *)
-From C13 Require Import Model ModelDrv ModelPack ModelUtf8 ModelPat ModelPackFmt ProofsIdx ProofsOrd ProofsDrv ProofsPack ProofsUtf8 ProofsPat ProofsPackFmt.
+From C13 Require Import Model ModelDrv ModelPack ModelUtf8 ModelPat ModelPackFmt ModelFmt ProofsIdx ProofsOrd ProofsDrv ProofsPack ProofsUtf8 ProofsPat ProofsPackFmt ProofsFmt.
 Local Open Scope Z_scope.
 
 (* ---- (a) index normalisation ---- *)
@@ -299,3 +299,35 @@ Theorem C13_pack_alignforward_eq_lua : forall total align maxalign,
   else nl_alignforward total align maxalign = Val (total + Z.land (a - Z.land total (a - 1)) (a - 1)).
 Proof. exact alignforward_eq_lua. Qed.
 Print Assumptions C13_pack_alignforward_eq_lua.
+
+(* ---- (g) string.format: integer, character and string conversions, %%, literal text ----
+   [lua_format_cap NL_MAXFLAGS false] is lstrlib.c's str_format restricted to what the port documents: at most
+   5 flag characters per item and no conversions p and q.  Wherever it returns a string, the port's
+   string.format returns the same string: for every format, every list of integer and string arguments, every
+   flag/width/precision combination Lua accepts, and every C formatter of floats [cfloat] (both sides hand the same
+   specification and the same argument to the same C function; for d i u o x X c s that function is [c99_snprintf],
+   ISO C99 7.21.6.1, which the correspondence runs against the real port and the real interpreter). *)
+Theorem C13_format_eq_lua : forall cfloat fmt args out,
+  lua_format_cap cfloat NL_MAXFLAGS false fmt args = LVal out -> nl_format cfloat fmt args = Val out.
+Proof. exact format_eq_lua. Qed.
+Print Assumptions C13_format_eq_lua.
+
+(* ... and that restricted reference only ever returns what Lua's str_format returns *)
+Theorem C13_format_restricted_is_lua : forall cfloat fmt args out,
+  lua_format_cap cfloat NL_MAXFLAGS false fmt args = LVal out -> lua_format cfloat fmt args = LVal out.
+Proof. exact format_cap_sub_lua. Qed.
+Print Assumptions C13_format_restricted_is_lua.
+
+(* REFUTED obligation "string.format never reaches undefined behaviour": scanformat accepts every flag on every
+   conversion; string.format('%#d', 5) calls snprintf with a specification ISO C leaves undefined (Lua 5.4's
+   checkformat raises an error instead) *)
+Theorem C13_format_never_unsafe_refuted : forall cfloat, nl_format cfloat [37; 35; 100] [AInt 5] = Unsafe.
+Proof. exact format_unsafe_witness. Qed.
+Print Assumptions C13_format_never_unsafe_refuted.
+
+(* the C model: "%lld" of an integer is its decimal text (the text %s and tostring give) *)
+Theorem C13_c99_plain_d_is_decimal : forall v, in_i64 v ->
+  c99_int {| f_minus := false; f_plus := false; f_space := false; f_hash := false; f_zero := false;
+             c_width := 0; c_prec := None; c_ll := true; c_conv := 100 |} (u64 v) = decimal_of v.
+Proof. exact c99_plain_d. Qed.
+Print Assumptions C13_c99_plain_d_is_decimal.
